@@ -1,5 +1,6 @@
 CONSTANT MaxExt = 2
 CONSTANT MaxSG = 1
+CONSTANT MaxUx = 1
 CONSTANT MaxMeta = 1
 CONSTANT MaxFeed = 2
 CONSTANT MaxCache = 1
